@@ -58,8 +58,7 @@ func open(c *chains.Chain, dryRun bool, v variation) *testdb.DB {
 	d := testdb.Open(testdb.Options{
 		Config: gorm.Config{NowFunc: fixedNow, Logger: stockLogger(v.logger), DryRun: dryRun, PrepareStmt: v.prepare, SkipDefaultTransaction: v.skipTx,
 			CreateBatchSize: c.ConfigBatchSize(), QueryFields: v.queryFields, DisableNestedTransaction: v.noNested},
-		// Create from maps: see C01, scanning RETURNING rows into []map fails after the statement was sent
-		NoReturning: c.CreatesFromMap() || (v.noReturning && !c.Returning),
+		NoReturning: v.noReturning && !c.Returning,
 	})
 	return d
 }
